@@ -399,6 +399,37 @@ func segRandom(seed int64, thorough bool) *segment {
 		r.call(g, bestIdx+1, nil, true)
 		r.seg.add(ev{"ev": "note", "what": "self-repeat", "draws": bestIdx + 1})
 	}
+	// concurrent calls on ONE generator (it serialises its random source with a mutex): the outputs depend on the
+	// interleaving and need not be disjoint from each other, but every call's contract must hold
+	{
+		gc := r.randomGen(rnd.Int63(), false)
+		shared := randomTokens(rnd, 500)
+		nPar := 6
+		reqsPar := make([]int, nPar)
+		for i := range reqsPar {
+			reqsPar[i] = 200 + rnd.Intn(800)
+		}
+		outs := make([]ring.Tokens, nPar)
+		pans := make([]string, nPar)
+		var wg sync.WaitGroup
+		start := make(chan struct{})
+		for i := 0; i < nPar; i++ {
+			wg.Add(1)
+			go func(i int) {
+				defer wg.Done()
+				<-start
+				outs[i], pans[i] = safeGenerate(gc.g, reqsPar[i], shared)
+			}(i)
+		}
+		close(start)
+		wg.Wait()
+		for i := 0; i < nPar; i++ {
+			r.seg.calls++
+			r.seg.nontrivial++
+			r.seg.add(ev{"ev": "call", "h": gc.h, "req": reqsPar[i], "taken": limbs(shared), "member": -1,
+				"out": limbs(outs[i]), "panic": pans[i] != "", "msg": pans[i], "concurrent": true})
+		}
+	}
 	// the time-seeded constructor (contract must hold for whatever seed it picked)
 	gt := r.randomGen(0, true)
 	o := r.call(gt, 512, nil, false)
@@ -430,7 +461,7 @@ func instanceSamples(rnd *rand.Rand, thorough bool, maxInst int) []int {
 	}
 	extra := 4
 	if thorough {
-		extra = 40
+		extra = 30
 	}
 	for i := 0; i < extra; i++ {
 		set[rnd.Intn(maxInst+1)] = true
@@ -513,6 +544,7 @@ func segSpread(seed int64, thorough bool, zoneCount int, part int) *segment {
 		larger = []int{2000, 200}
 	}
 	var wholeFamilies []ev // logged at the end of the segment (they make the specification's state big)
+	var donorEvents []ev   // after all families (the reserves they refer to are known by then)
 	for li, n := range larger {
 		z := rnd.Intn(zoneCount)
 		g := r.spreadByID("big-", n, z, false)
@@ -537,6 +569,15 @@ func segSpread(seed int64, thorough bool, zoneCount int, part int) *segment {
 			wholeFamilies = append(wholeFamilies, ev{"ev": "family", "h": g.h, "zone": z, "fam": f})
 			r.seg.calls++
 			r.seg.nontrivial++
+			// the same tokens as ONE ring sorted by token, each with its instance index: the specification
+			// derives the donor of every token of the last instances from it (order comparisons only)
+			window := 50
+			if n >= 1000 {
+				window = 100
+			}
+			if n <= 300 && (thorough || part == 0) {
+				donorEvents = append(donorEvents, ev{"ev": "donors", "h": g.h, "zone": z, "from": n + 1 - window, "ring": sortedRing(famSorted)})
+			}
 		} else {
 			for _, k := range ks {
 				if k > n {
@@ -561,7 +602,7 @@ func segSpread(seed int64, thorough bool, zoneCount int, part int) *segment {
 	}
 	nCalls := 60
 	if thorough {
-		nCalls = 400
+		nCalls = 250
 	}
 	for c := 0; c < nCalls && len(cheap) > 0; c++ {
 		g := cheap[rnd.Intn(len(cheap))]
@@ -652,7 +693,32 @@ func segSpread(seed int64, thorough bool, zoneCount int, part int) *segment {
 	for _, e := range wholeFamilies {
 		r.seg.add(e)
 	}
+	for _, e := range donorEvents {
+		r.seg.add(e)
+		r.seg.calls++
+		r.seg.nontrivial++
+	}
 	return r.seg
+}
+
+// sortedRing merges the per-instance token lists into one list [hi, lo, instance] sorted by token.
+func sortedRing(fam [][]uint32) [][3]int {
+	type ent struct {
+		tok   uint32
+		owner int
+	}
+	var all []ent
+	for k, ts := range fam {
+		for _, t := range ts {
+			all = append(all, ent{t, k})
+		}
+	}
+	sort.Slice(all, func(i, j int) bool { return all[i].tok < all[j].tok })
+	out := make([][3]int, len(all))
+	for i, e := range all {
+		out[i] = [3]int{int(e.tok >> 16), int(e.tok & 0xffff), e.owner}
+	}
+	return out
 }
 
 // ---------------------------------------------------------------------------------------------
@@ -849,6 +915,53 @@ func corrupt(segs []*segment, how string) {
 	}
 }
 
+// segDonors: generator (n, zone), the whole family 0..n it computes and the same tokens as one sorted ring with the
+// instance index of every token (the specification derives the donors of the last `window` instances from it).
+func segDonors(seed int64, n, window int) *segment {
+	r := newRecorder(fmt.Sprintf("donors-n%d", n), seed)
+	z := r.rnd.Intn(8)
+	g := r.spreadByID("big-", n, z, false)
+	fam, err := generateTokensByInstanceID(g.sp)
+	if err != nil {
+		r.seg.add(ev{"ev": "call", "h": g.h, "req": reserveSize, "taken": []limb{}, "member": -1, "out": []limb{}, "panic": true, "msg": err.Error()})
+		return r.seg
+	}
+	famSorted := make([][]uint32, n+1)
+	f := make([][]limb, n+1)
+	for k := 0; k <= n; k++ {
+		tk := append([]uint32(nil), fam[k]...)
+		slices.Sort(tk)
+		famSorted[k] = tk
+		f[k] = limbs(tk)
+	}
+	r.seg.add(ev{"ev": "family", "h": g.h, "zone": z, "fam": f})
+	r.seg.add(ev{"ev": "donors", "h": g.h, "zone": z, "from": n + 1 - window, "ring": sortedRing(famSorted)})
+	r.seg.calls += 2
+	r.seg.nontrivial += 2
+	return r.seg
+}
+
+// TestRecordDonors records only segDonors (development aid / targeted re-check:
+// VERIF_DONORS_N=1300 VERIF_TRACE_DIR=d go test -run TestRecordDonors, then validate d/donors.ndjson with TokenGenTrace).
+func TestRecordDonors(t *testing.T) {
+	dir := os.Getenv("VERIF_TRACE_DIR")
+	n := abs.EnvInt("VERIF_DONORS_N", 0)
+	if dir == "" || n == 0 {
+		t.Skip("VERIF_TRACE_DIR / VERIF_DONORS_N not set")
+	}
+	sg := segDonors(abs.Seed(), n, 100)
+	w, err := abs.NewNDJSONWriter(filepath.Join(dir, "donors.ndjson"))
+	if err != nil {
+		t.Fatal(err)
+	}
+	for _, e := range sg.events {
+		_ = w.Write(e)
+	}
+	if err := w.Close(); err != nil {
+		t.Fatal(err)
+	}
+}
+
 func TestRecord(t *testing.T) {
 	dir := os.Getenv("VERIF_TRACE_DIR")
 	if dir == "" {
@@ -867,9 +980,9 @@ func TestRecord(t *testing.T) {
 		jobs = append(jobs, func() *segment { return segRandom(sd, thorough) })
 	}
 	if thorough {
-		for zc := 1; zc <= 8; zc++ {
-			sd, zc := s(), zc
-			jobs = append(jobs, func() *segment { return segSpread(sd, true, zc, zc-1) })
+		for pi, zc := range []int{1, 2, 3, 5, 8} {
+			sd, zc, pi := s(), zc, pi
+			jobs = append(jobs, func() *segment { return segSpread(sd, true, zc, pi) })
 		}
 		for _, cfg := range [][2]int{{1, 40}, {3, 20}, {8, 8}, {2, 30}} {
 			sd, cfg := s(), cfg
@@ -877,6 +990,8 @@ func TestRecord(t *testing.T) {
 		}
 		sd := s()
 		jobs = append(jobs, func() *segment { return segPartitions(sd, true, 200) })
+		sdd := s()
+		jobs = append(jobs, func() *segment { return segDonors(sdd, 1300, 100) })
 	} else {
 		// one short zone list of seeded length and the full list of 8 zones (every zone index 0..7 in every run)
 		zcs := []int{1 + int(master.Int63n(7)), 8}
@@ -890,7 +1005,16 @@ func TestRecord(t *testing.T) {
 		sd := s()
 		jobs = append(jobs, func() *segment { return segPartitions(sd, false, 48) })
 	}
-	segs := make([]*segment, len(jobs))
+	segs := make([]*segment, len(jobs)+1)
+	// real lifecyclers under the virtual clock (sequential: synctest bubble on the test goroutine's behalf)
+	func() {
+		defer func() {
+			if x := recover(); x != nil {
+				segs[len(jobs)] = &segment{name: "lifecyclers", panics: []string{"driver: " + fmt.Sprint(x)}}
+			}
+		}()
+		segs[len(jobs)] = segLifecyclers(t, s(), thorough)
+	}()
 	var wg sync.WaitGroup
 	sem := make(chan struct{}, 3)
 	for i, j := range jobs {
@@ -911,6 +1035,13 @@ func TestRecord(t *testing.T) {
 	corrupt(segs, os.Getenv("VERIF_C16_CORRUPT"))
 	files := []string{}
 	for i, sg := range segs {
+		if sg != nil {
+			for _, p := range sg.panics {
+				if len(p) > 7 && p[:7] == "driver:" {
+					res.Fatal = sg.name + ": " + p
+				}
+			}
+		}
 		if sg == nil || len(sg.events) == 0 {
 			res.Fatal = fmt.Sprintf("segment %d produced no events: %v", i, sg)
 			break
